@@ -120,7 +120,7 @@ NESTED_DEF_NAMES = ["n19a", "n19b", "n19c", "n19d", "n19e", "n19f", "n19g", "n19
 
 EXPR_POSITIONS = [
     "expr", "ctl-if", "ctl-for", "code", "code-in-def", "module", "def-body", "def-default-top",
-    "call-expr", "nscall-attr", "filter-arg", "block-filter",
+    "call-expr", "nscall-attr", "filter-arg", "block-filter", "def-kwdefault-nested",
 ] + ["def-default-nested:" + n for n in NESTED_DEF_NAMES]
 STMT_POSITIONS = ["code", "code-in-def", "code-in-ctl", "module"]
 
@@ -182,15 +182,22 @@ def expr_case(label, E, free, bound, pos, outside):
         if '"' in E:
             return None
         t = '<%%def name="t19(a19=%s)">[[${N19(a19)}]]%s</%%def>${t19()}' % (E, obs_t)
+        # the default is evaluated when the module is imported and again where the def is made callable in the body:
+        # its free names have to be module-level names
         mod = "__d19 = %s" % E
         body = "def t19(a19=%s):\n    __o(a19)%s\nt19()" % (E, _ind(obs_n))
-        mod_names = list(free)
+        mod_names, ctx_names = list(free), []
     elif pos.startswith("def-default-nested:"):
         if '"' in E:
             return None
         nme = pos.split(":")[1]
         t = '<%%def name="o19()"><%%def name="%s(a19=%s)">[[${N19(a19)}]]</%%def>${%s()}%s</%%def>${o19()}' % (nme, E, nme, obs_t)
         body = "def %s(a19=%s):\n    __o(a19)\n%s()%s" % (nme, E, nme, obs_n)
+    elif pos == "def-kwdefault-nested":
+        if '"' in E:
+            return None
+        t = '<%%def name="o19()"><%%def name="k19(*, a19=%s)">[[${N19(a19)}]]</%%def>${k19()}%s</%%def>${o19()}' % (E, obs_t)
+        body = "def k19(*, a19=%s):\n    __o(a19)\nk19()%s" % (E, obs_n)
     elif pos == "call-expr":
         if '"' in E:
             return None
